@@ -559,9 +559,11 @@ def _sift_with_noise(X, noise_scaling=None, noise=None, noise_mode='single',
         return imf
     elif noise_mode == 'flip':
         ensX = X.copy() - noise
-        imf += sift(ensX, sift_thresh=sift_thresh, max_imfs=max_imfs,
+        imf2 = sift(ensX, sift_thresh=sift_thresh, max_imfs=max_imfs,
                     imf_opts=imf_opts, envelope_opts=envelope_opts, extrema_opts=extrema_opts)
-        return imf / 2
+        # The two sifts can find different numbers of IMFs, average the shared ones
+        nimfs = min(imf.shape[1], imf2.shape[1])
+        return (imf[:, :nimfs] + imf2[:, :nimfs]) / 2
 
 
 # Implementation
@@ -651,11 +653,14 @@ def ensemble_sift(X, nensembles=4, ensemble_noise=.2, noise_mode='single',
 
     p.close()
 
-    if max_imfs is None:
-        max_imfs = res[0].shape[1]
+    # Ensemble members can find different numbers of IMFs, average the ones
+    # which are present in every member
+    nimfs = min([r.shape[1] for r in res])
+    if max_imfs is not None:
+        nimfs = min(nimfs, max_imfs)
 
-    imfs = np.zeros((X.shape[0], max_imfs))
-    for ii in range(max_imfs):
+    imfs = np.zeros((X.shape[0], nimfs))
+    for ii in range(nimfs):
         imfs[:, ii] = np.array([r[:, ii] for r in res]).mean(axis=0)
 
     return imfs
